@@ -549,6 +549,14 @@ def oracle_c20(world):
             if subscribed and asked != granted[:len(asked)] or (subscribed and cancel is None and len(asked) != len(granted)):
                 V('feedback_mismatch', 'interaction %d: back-pressure factory asked for %s, requester granted %s'
                   % (iid, asked[:6], granted[:6]), None, **facts)
+        # the producer stops once CANCEL has reached it (one element may already be on its way)
+        crx = next((e for e in hb if e['k'] == 'rx' and e['ep'] == 'server' and e['f']['sid'] == sid and e['f']['type'] == 'CANCEL'), None)
+        if crx is not None and ia.get('resp') and not core_server:
+            later = [e for e in hb if e['k'] == 'pub' and e.get('iid') == iid and e['role'] == 'responder' and e['cb'] == 'emit'
+                     and e['seq'] > crx['seq']]
+            if len(later) > 1:
+                V('producer_not_stopped', 'interaction %d: the handler observable produced %d more elements after CANCEL arrived'
+                  % (iid, len(later)), later[1]['seq'], src=(ia.get('resp') or {}).get('kind'), **facts)
         # disposal cancels the stream
         if cancel is not None and term is None or (cancel is not None and term is not None and term['seq'] > cancel['seq']):
             cf = [e for e in hb if e['k'] == 'enq' and e['ep'] == 'client' and e['f']['sid'] == sid and e['f']['type'] == 'CANCEL']
@@ -568,7 +576,8 @@ def oracle_c09_rx(world):
     adapter's cancel(). The disposal rules of the C20 oracle, reported under C09."""
     out = []
     for v in oracle_c20(world):
-        if v.cls in ('C20.dispose_did_not_cancel', 'C20.signal_after_dispose'):
-            cls = {'C20.dispose_did_not_cancel': 'C09.rx_dispose_did_not_cancel', 'C20.signal_after_dispose': 'C09.rx_signal_after_dispose'}[v.cls]
+        if v.cls in ('C20.dispose_did_not_cancel', 'C20.signal_after_dispose', 'C20.producer_not_stopped'):
+            cls = {'C20.dispose_did_not_cancel': 'C09.rx_dispose_did_not_cancel', 'C20.signal_after_dispose': 'C09.rx_signal_after_dispose',
+                   'C20.producer_not_stopped': 'C09.rx_producer_not_stopped'}[v.cls]
             out.append(Violation('C09', cls, v.msg, v.seq, **v.facts))
     return out
